@@ -267,7 +267,9 @@ def runCase (rc : RunCfg) (c : Case) : String × String :=
      else "-")
   | "plan" =>
     (match compileCase rc c c.expr with
-      | .ok p => "plan:" ++ p.dump numLexBits
+      | .ok p =>
+        if (match parseOnly c c.expr with | .ok a => a.staleFirstInputRisk | .error _ => false)
+        then "plan:unmodelled:stale-firstInput" else "plan:" ++ p.dump numLexBits
       | .error _ => "cerr", "-")
   | "meta" =>
     match c.extra.splitOn ";" with
